@@ -55,6 +55,7 @@ fn main() {
             let stdout = std::io::stdout();
             println!("READY");
             let _ = stdout.lock().flush();
+            rio_verif::ffi::install_log_callback();
             alloc_audit::enable(true);
             for line in stdin.lock().lines() {
                 let Ok(line) = line else { break };
@@ -69,20 +70,26 @@ fn main() {
                     }
                 };
                 alloc_audit::reset_mismatches();
+                let logs0 = rio_verif::ffi::LOG_MESSAGES.load(std::sync::atomic::Ordering::Relaxed);
                 let r1 = c18::run_sequence(&case);
                 let s1 = alloc_audit::snapshot();
                 let r2 = c18::run_sequence(&case);
                 let r3 = c18::run_sequence(&case);
                 let s3 = alloc_audit::snapshot();
                 drop((r2, r3));
-                let verdict = if s3.mismatches > 0 {
+                let logs = rio_verif::ffi::LOG_MESSAGES.load(std::sync::atomic::Ordering::Relaxed) - logs0;
+                let verdict = if s3.double_frees > 0 {
+                    format!("FAIL double free: {} block(s) released again before being handed out anew (three repetitions; {} log messages went through the callback, which releases each message once)", s3.double_frees, logs)
+                } else if rio_verif::ffi::LOG_BAD.swap(0, std::sync::atomic::Ordering::Relaxed) > 0 {
+                    "FAIL the log callback received a message without its \"<LEVEL> - \" prefix, a level outside 1..=5, or a foreign user-data pointer".to_string()
+                } else if s3.mismatches > 0 {
                     format!("FAIL deallocation with a layout different from the allocation ({} times over three repetitions); first: {}", s3.mismatches, alloc_audit::first_mismatch())
                 } else if let Err(e) = &r1 {
                     format!("FAIL {e}")
                 } else if c18::leak_audited(&case) && s3.live != s1.live {
                     format!("FAIL leak: live allocations grow from {} to {} ({} bytes) over two more repetitions of the sequence", s1.live, s3.live, s3.live_bytes - s1.live_bytes)
                 } else {
-                    "OK".to_string()
+                    format!("OK logs={logs}")
                 };
                 println!("{}", verdict.replace('\n', " "));
                 let _ = stdout.lock().flush();
@@ -90,6 +97,7 @@ fn main() {
         }
         "ffi-null" => {
             let index: usize = args.get(1).and_then(|s| s.parse().ok()).unwrap_or(0);
+            rio_verif::ffi::install_log_callback();
             let m = c18::null_matrix();
             if let Some(case) = m.get(index) {
                 let _ = c18::run_sequence(case);
